@@ -12,6 +12,7 @@ import (
 type frameInfo struct {
 	reads   map[*ssa.Global]bool
 	writes  map[*ssa.Global]bool
+	assigns map[*ssa.Global]bool // written by a Store (as opposed to updated through a map held in it)
 	heap    bool // stores through pointers that are not rooted at a global or a local cell
 	dynamic bool // calls through function values / interface methods of /repo types
 	done    bool
@@ -33,6 +34,9 @@ func rootGlobal(v ssa.Value, depth int) *ssa.Global {
 		return rootGlobal(x.X, depth+1)
 	case *ssa.UnOp:
 		if x.Op == token.MUL {
+			if _, isPtr := x.Type().Underlying().(*types.Pointer); isPtr {
+				return nil // a store through a pointer held in a global goes to the heap object, not to the global
+			}
 			return rootGlobal(x.X, depth+1)
 		}
 	case *ssa.Slice:
@@ -43,6 +47,25 @@ func rootGlobal(v ssa.Value, depth int) *ssa.Global {
 		return rootGlobal(x.X, depth+1)
 	}
 	return nil
+}
+
+// assignsGlobal: the store replaces (part of) the global's own value, not something reached through a load
+func assignsGlobal(v ssa.Value, depth int) bool {
+	if depth > 12 {
+		return true
+	}
+	switch x := v.(type) {
+	case *ssa.Global:
+		return true
+	case *ssa.FieldAddr:
+		return assignsGlobal(x.X, depth+1)
+	case *ssa.IndexAddr:
+		if _, isSlice := x.X.Type().Underlying().(*types.Slice); isSlice {
+			return false
+		}
+		return assignsGlobal(x.X, depth+1)
+	}
+	return false
 }
 
 func rootIsLocal(v ssa.Value, depth int) bool {
@@ -88,7 +111,7 @@ func (w *World) frameOf(fn *ssa.Function) *frameInfo {
 	if fi, ok := frameCache[fn]; ok {
 		return fi
 	}
-	fi := &frameInfo{reads: map[*ssa.Global]bool{}, writes: map[*ssa.Global]bool{}}
+	fi := &frameInfo{reads: map[*ssa.Global]bool{}, writes: map[*ssa.Global]bool{}, assigns: map[*ssa.Global]bool{}}
 	frameCache[fn] = fi
 	if !inRepo(fn) || fn.Blocks == nil {
 		fi.done = true
@@ -101,6 +124,9 @@ func (w *World) frameOf(fn *ssa.Function) *frameInfo {
 			case *ssa.Store:
 				if g := rootGlobal(x.Addr, 0); g != nil {
 					fi.writes[g] = true
+					if assignsGlobal(x.Addr, 0) {
+						fi.assigns[g] = true
+					}
 				} else if !rootIsLocal(x.Addr, 0) {
 					if _, isParam := rootParam(x.Addr, 0); !isParam {
 						fi.heap = true
@@ -175,6 +201,9 @@ func (w *World) frameOf(fn *ssa.Function) *frameInfo {
 		}
 		for g := range ci.writes {
 			fi.writes[g] = true
+		}
+		for g := range ci.assigns {
+			fi.assigns[g] = true
 		}
 		if ci.heap {
 			fi.heap = true
